@@ -39,6 +39,7 @@ func runC14(c *core.Ctx, r *core.Reporter) {
 	c14stable(c, r)
 	c14testorder(c, r)
 	c14less(c, r)
+	runRuneUnits(c, r, "C14.units", 100)
 }
 
 // reachableStrings: string constants in functions statically reachable from fn inside the module (depth-limited).
